@@ -10,7 +10,7 @@ def sys (me cap : Nat) (cfg : GcReg.Cfg) : Sys St Action := { init := init cfg, 
 /-- how the M_sub component may change in one step of the product: not at all / created / a finite M_sub run -/
 inductive SubRun (cap : Nat) : Option GcSub.St → Option GcSub.St → Prop
   | none : SubRun cap none none
-  | create : SubRun cap none (some (GcSub.init cap))
+  | create (q0 : GcSub.St) (run : List GcSub.Action) (h : exec (GcSub.sys cap) (GcSub.init cap) run = some q0) : SubRun cap none (some q0)
   | run (q q' : GcSub.St) (run : List GcSub.Action) (h : exec (GcSub.sys cap) q run = some q') : SubRun cap (some q) (some q')
 
 theorem subRun_refl (cap : Nat) (x : Option GcSub.St) : SubRun cap x x := by
@@ -53,6 +53,15 @@ theorem foldl_spawn_none (od : Option Nat) (msgs : List Nat) (snd : Snd) :
   | nil => rfl
   | cons m rest ih => simp only [List.foldl, spawn1]; exact ih
 
+/-- the created subscriber object is a reachable state of M_sub: the environment actions `gClose` / `cancel` from `init` -/
+theorem createSt_run (cap : Nat) (r : GcReg.St) : SubRun cap none (some (createSt cap r)) := by
+  refine .create _ ((if r.closingSig then [GcSub.Action.gClose] else []) ++
+    (if r.cancelled.contains r.nextSid then [GcSub.Action.cancel] else [])) ?_
+  have hc : ∀ b, r.cancelled.contains r.nextSid = b → (createSt cap r).ctxDone = b := fun b hb => by simp only [createSt]; exact hb
+  cases h1 : r.closingSig <;> cases h2 : r.cancelled.contains r.nextSid <;>
+    simp only [exec, GcSub.sys, GcSub.act, createSt, GcSub.init, h1, h2, List.append_nil, List.nil_append, List.cons_append,
+      if_true, if_false, Bool.false_eq_true, reduceIte]
+
 /-- an M_reg step changes the M_sub component by creating it or by a finite run of M_sub actions -/
 theorem effect_subRun (me cap : Nat) (r r' : GcReg.St) (a : GcReg.Action) (x : Option GcSub.St) (snd : Snd)
     (x' : Option GcSub.St) (snd' : Snd) (h : effect me cap r r' a (x, snd) = some (x', snd')) : SubRun cap x x' := by
@@ -90,7 +99,7 @@ theorem effect_subRun (me cap : Nat) (r r' : GcReg.St) (a : GcReg.Action) (x : O
       · exact same h
     · split at h
       · cases x with
-        | none => simp at h; obtain ⟨e1, _⟩ := h; subst e1; exact .create
+        | none => simp at h; obtain ⟨e1, _⟩ := h; subst e1; exact createSt_run cap r
         | some q => exact same h
       · exact same h
     · rename_i t sid hth
@@ -177,7 +186,7 @@ theorem reach_sub (me cap : Nat) (cfg : GcReg.Cfg) : ∀ s, Reach (sys me cap cf
     | none =>
       rw [hs] at hr
       cases hr with
-      | create => exact Reach.init
+      | create _ run hrun => exact reach_of_exec (GcSub.sys cap) Reach.init run hrun
     | some q0 =>
       rw [hs] at hr
       cases hr with
